@@ -36,6 +36,9 @@ type c04Tok struct {
 }
 
 type c04World struct {
+	// revBase: revocation counts of the (shared) recording backend when this world was forked; forks of one store
+	// hold the same secrets, so only revocations since the fork count for this world
+	revBase map[string]int
 	t    *testing.T
 	tc   *tcore
 	hub  *recHub
@@ -225,7 +228,7 @@ func (w *c04World) checkAll() (string, string) {
 			}
 			if le != nil && le.ExpireTime.After(time.Now()) && !le.isIrrevocable() {
 				w.hub.mu.Lock()
-				rv := w.hub.revoked[l.secretID]
+				rv := w.hub.revoked[l.secretID] - w.revBase[l.secretID]
 				w.hub.mu.Unlock()
 				if rv == 0 {
 					return "lease-not-revoked", fmt.Sprintf("lease %s issued under revoked token %s is still stored with expiry %v in the future and was not revoked at the backend", l.leaseID, tk.name, le.ExpireTime)
@@ -261,7 +264,12 @@ func (w *c04World) fork() *c04World {
 	if err != nil {
 		w.t.Fatalf("harness: fork failed: %v", err)
 	}
-	nw := &c04World{t: w.t, tc: n, hub: w.hub}
+	nw := &c04World{t: w.t, tc: n, hub: w.hub, revBase: map[string]int{}}
+	w.hub.mu.Lock()
+	for id, c := range w.hub.revoked {
+		nw.revBase[id] = c
+	}
+	w.hub.mu.Unlock()
 	for _, tk := range w.toks {
 		c := *tk
 		c.leases = append([]c04Lease(nil), tk.leases...)
@@ -383,11 +391,15 @@ func TestVerif_C04_Histories(t *testing.T) {
 
 // c04BuildTree builds a generated tree with cubbyholes and leases; returns the index of the revocation target.
 func c04BuildTree(rt *rapid.T, w *c04World) int {
-	n := rapid.IntRange(2, 6).Draw(rt, "tokens")
+	n := 2 + fairIndex(rt, "tokens", 5)
 	for i := 0; i < n; i++ {
 		parent := -1
 		if i > 0 {
-			parent = rapid.IntRange(-1, i-1).Draw(rt, fmt.Sprintf("parent%d", i))
+			// mostly inside the tree that will be revoked (token 0 and its descendants), sometimes unrelated
+			parent = fairIndex(rt, fmt.Sprintf("parent%d", i), i+1) - 1
+			if parent < 0 && fairIndex(rt, fmt.Sprintf("outside%d", i), 4) > 0 {
+				parent = fairIndex(rt, fmt.Sprintf("parentIn%d", i), i)
+			}
 			if i == 1 {
 				parent = 0
 			}
@@ -397,11 +409,11 @@ func c04BuildTree(rt *rapid.T, w *c04World) int {
 			w.t.Fatalf("harness: building tree: %v", r)
 		}
 		w.logf("create parent=%d", parent)
-		if rapid.Bool().Draw(rt, fmt.Sprintf("cubby%d", i)) {
+		if fairIndex(rt, fmt.Sprintf("cubby%d", i), 2) == 0 {
 			w.writeCubby(i)
 			w.logf("cubby %d", i)
 		}
-		if rapid.IntRange(0, 2).Draw(rt, fmt.Sprintf("lease%d", i)) == 0 {
+		for j := fairIndex(rt, fmt.Sprintf("leases%d", i), 3); j > 0; j-- {
 			w.lease(i)
 			w.logf("lease %d", i)
 		}
@@ -538,7 +550,12 @@ func TestVerif_C04_Faults(t *testing.T) {
 				rec.Violation(rt, "crash-prefix-unbootable", map[string]any{"build": base.log, "k": k}, "core does not start on the store after %d of %d writes of %s: %v", k, nMut, kind, err)
 				continue
 			}
-			w := &c04World{t: t, tc: n, hub: base.hub}
+			w := &c04World{t: t, tc: n, hub: base.hub, revBase: map[string]int{}}
+			base.hub.mu.Lock()
+			for id, c := range base.hub.revoked {
+				w.revBase[id] = c
+			}
+			base.hub.mu.Unlock()
 			for _, tk := range base.toks {
 				c := *tk
 				w.toks = append(w.toks, &c)
